@@ -145,7 +145,7 @@ func fixSize(entries []raftpb.Entry, maxSize uint64) []raftpb.Entry {
 	size := 0
 	for i := 0; i < len(entries); i++ {
 		size += entries[i].SizeUpperLimit()
-		if uint64(size) >= maxSize {
+		if i > 0 && uint64(size) >= maxSize {
 			return entries[:i]
 		}
 	}
